@@ -248,7 +248,7 @@ def run_type(i, label, spec, tier, st):
             except Exception as e:
                 st.violation(dict(base, signature={"kind": "exception", "exc": type(e).__name__, "shape": dc.shape_of(label)}, what=f"serialize raised {e!r}"[:300], source=rz.source))
                 continue
-            keys = tuple(sorted(out)) if isinstance(out, dict) else type(out).__name__
+            keys = tuple(sorted(map(repr, out))) if isinstance(out, dict) else type(out).__name__
             st.case(dc.shape_of(label), (en, ed, eu, ap, al), vi, keys)
             j = json_only(out)
             if j:
